@@ -292,7 +292,7 @@ def check_tags(acc):
     sigs = ["c0ffee01" * 8, "c0ffee02" * 8]
     d2 = env(man={}, auth={f"SuitAuthentication{i}": {"CoseSign1Tagged": {"protected": {}, "unprotected": {}, "payload": None, "signature": sg}} for i, sg in enumerate(sigs)})
     ref2 = refenc.envelope(copy.deepcopy(d2))
-    good = sut.parse_mem(ref2)
+    good = _parse_reference(ref2, "an envelope with two authentication blocks tagged 18")
     for sg in sigs:
         if not any("CoseSign1Tagged" in pth for pth in _paths_to(good, sg)):
             raise Violation(f"tag 18 block with signature {sg[:8]}.. is not shown as CoseSign1Tagged", "CoseSign1Tagged rendering")
@@ -314,6 +314,15 @@ def check_tags(acc):
                 if not paths:
                     raise Violation(f"envelope whose authentication block {i} carries {'tag ' + str(new_tag) if new_tag is not None else 'no tag'} instead of 18 parses, and the block "
                                     f"(signature {sg[:8]}..) is absent from the description: {str(shown)[:200]}", "refusal, or the item shown as something other than COSE_Sign1", bucket="untagged-block-vanishes")
+
+
+def _parse_reference(data, what):
+    try:
+        return sut.parse_mem(data)
+    except boot.HarnessError:
+        raise
+    except Exception as e:
+        raise Violation(f"parse refuses {what}: {type(e).__name__}: {str(e)[:160]}", "accepted: the tags mark the items", bucket="tagged-reference-refused")
 
 
 def _paths_to(x, needle, path=()):
@@ -488,7 +497,7 @@ def check_tag_widths(acc):
     desc = env(man={"suit-validate": [{"suit-directive-override-parameters": enc}]}, auth=auth_block(), members={"suit-integrated-dependencies": {"#dep": child},
                                                                                                                "suit-integrated-payloads": {"#p": "0011"}})
     ref = refenc.envelope(copy.deepcopy(desc))
-    shown = sut.parse_mem(ref)
+    shown = _parse_reference(ref, "an envelope with tags 107 / 18 / 96 in their shortest form")
     if "#dep" not in (shown.get("SUIT_Envelope_Tagged", {}).get("suit-integrated-dependencies") or {}):
         raise Violation("a nested envelope (tag 107) is not shown under suit-integrated-dependencies", "dependency recognised by its tag")
     for tag, nth_choices in ((107, (None, 0, 1)), (18, (None, 1)), (96, (None,))):
